@@ -193,3 +193,29 @@ func gcd(a, b int) int {
 	}
 	return a
 }
+
+// truthDB: streams with every combination of a, b ∈ {x, y} and c ∈ {1, 2}; every stream carries JSON lines with every
+// combination of k ∈ {x, y} and i ∈ {5, 0} plus a non-JSON line: all 8 truth assignments of three independent
+// comparisons exist for stored labels (a, b, c), for extracted ones (p, q) with a stored one, and mixtures.
+func truthDB(start, end int64) *Database {
+	d := &Database{Name: "truth"}
+	fp := uint64(5000)
+	for _, a := range []string{"x", "y"} {
+		for _, b := range []string{"x", "y"} {
+			for _, c := range []string{"1", "2"} {
+				fp++
+				d.Streams = append(d.Streams, Stream{Labels: map[string]string{"a": a, "b": b, "c": c}, Type: 1, FP: fp})
+			}
+		}
+	}
+	lines := []string{`{"k":"x","i":5}`, `{"k":"x","i":0}`, `{"k":"y","i":5}`, `{"k":"y","i":0}`, `plain`}
+	ts := start + 100
+	for li, l := range lines {
+		for s := range d.Streams {
+			ts += 11
+			d.Entries = append(d.Entries, Entry{Stream: (s*3 + li) % len(d.Streams), TS: ts, Line: l})
+		}
+	}
+	d.build()
+	return d
+}
